@@ -321,6 +321,8 @@ class ModelWorld(engine.World):
     vals = s.g.integers(0, f["num_buckets"], size=n)
     if f["default"] is not None:
       vals = np.where(s.g.random(n) < 0.15, f["default"], vals)
+    if f.get("as_float"):
+      return vals.astype(np.float32)
     return vals.astype(np.int32)
 
   def _base_points(self, s, n):
@@ -360,7 +362,7 @@ class ModelWorld(engine.World):
       elif f["type"] == "cat" and f["pairs"]:
         for (a, b) in f["pairs"]:
           cols = [np.repeat(c, 2) for c in base]
-          cols[j] = np.tile(np.asarray([a, b], dtype=np.int32), n_base)
+          cols[j] = np.tile(np.asarray([a, b], dtype=base[j].dtype), n_base)
           blocks.append(cols)
           plan.append(("pair", j, offset, 2, (a, b)))
           offset += n_base * 2
@@ -696,7 +698,11 @@ class ModelWorld(engine.World):
           self.model.save_weights(path)
         elif fmt == "full_h5":
           path += ".h5"
-          self.model.save(path)
+          # Optimizer slots of a model rebuilt by Keras from JSON lose their
+          # layer prefix (build_from_config) and collide inside legacy H5
+          # files - Keras naming, no tfl code involved; optimizer state is not
+          # part of any claimed property.
+          self.model.save(path, include_optimizer=False)
         elif fmt == "keras":
           path += ".keras"
           self.model.save(path)
